@@ -239,10 +239,15 @@ func main() {
 		for _, which := range []string{"this", "other"} {
 			for sn, st := range statuses {
 				sg, which, st := sg, which, st
-				for forceShape = 0; forceShape < 4; forceShape++ {
+				for round := 0; round < 8; round++ {
+					forceShape = round % 4
 					forceAKI = []string{"", "long", "issuer-serial", "uri-serial+collide"}[(forceShape+len(sn)+len(which)+len(sg.Name))%4]
 					if strings.HasPrefix(sg.Name, "client-own") && which == "this" {
-						forceAKI = "uri-serial+collide"
+						// answers signed by the client itself: every shape with the ordinary key identifier form
+						// and every shape with the serial-only form in which the client carries the CA's serial
+						forceAKI = []string{"", "uri-serial+collide"}[round/4]
+					} else if round >= 4 {
+						break
 					}
 					v := protocol(func(leaf *pki.CA, serial *big.Int) []byte {
 						s := serial
@@ -254,7 +259,7 @@ func main() {
 					desc := fmt.Sprintf("signer=%s serial=%s status=%s", sg.Name, which, sn)
 					check(desc, "signer-"+sg.Name+".serial-"+which, sg.Authorised && which == "this", st == ocsp.Revoked, v)
 					run.Count("matrix_cells", 1)
-					if (sg.Name == "issuer" || sg.Name == "client-own-certificate") && forceShape == 3 {
+					if (sg.Name == "issuer" || sg.Name == "client-own-certificate") && round == 3 {
 						run.Sample(map[string]any{"cell": desc + " " + v.shape, "observed": fmt.Sprintf("%+v", v)})
 					}
 				}
